@@ -29,7 +29,7 @@ def main(argv):
         results = {}
         for p in cands:
             t0 = time.time()
-            keep = "/var/tmp/verif-seedmatrix-replays"
+            keep = "/var/tmp/verif-seedmatrix-replays.%d" % os.getpid()
             subprocess.run(["rm", "-rf", keep])
             r = subprocess.run(["./seedtest.sh", os.path.join(d, "patch.diff"), p], cwd=ROOT, capture_output=True, text=True, env=dict(os.environ, KEEP_REPLAY=keep))
             out = r.stdout + r.stderr
